@@ -173,8 +173,8 @@ type pfile struct {
 }
 
 type vpeer struct {
-	in, out *VPipe // in: client->server, out: server->client
-	Permute bool   // reply order chosen by the explorer
+	in, out *VPipe            // in: client->server, out: server->client
+	Permute bool              // reply order chosen by the explorer
 	files   map[string]*pfile // by path
 	handles map[string]*pfile
 	hpath   map[string]string
@@ -190,7 +190,7 @@ type vpeer struct {
 	NoReply   map[uint32]bool
 	Hook      func(p *vpeer, r preq) []byte // overrides the reply when it returns non-nil
 	Replies   int
-	StopAfter int // stop answering (and hang up) after that many replies; 0 = never
+	StopAfter int  // stop answering (and hang up) after that many replies; 0 = never
 	HoldEOF   bool // do not close the reply stream on client EOF (used to model a peer that lingers)
 }
 
